@@ -395,7 +395,7 @@ func TestC02Pinned(t *testing.T) {
 
 // pinHints are indices of the fixed directed-case stream known to satisfy each class predicate
 // (only a speed-up: every candidate is re-checked against the predicate).
-var pinHints = map[string][]int{"responder-lacks-root": {13, 19, 22}, "same-path-loaded-twice": {6282, 6846}, "skip-overshoot": {119, 285}}
+var pinHints = map[string][]int{"responder-lacks-root": {2, 22}, "same-path-loaded-twice": {4215}, "skip-overshoot": {26}}
 
 func seq(n int) []int {
 	out := make([]int, n)
